@@ -284,3 +284,5 @@ COMPONENTS.append(COMPONENT_E2E)
 
 from .gen_E2E2 import COMPONENT_E2E2  # noqa: E402  second end-to-end instance (design/E2E.md)
 COMPONENTS.append(COMPONENT_E2E2)
+from .gen_E2E3 import COMPONENT_E2E3  # noqa: E402  third end-to-end instance (design/E2E.md)
+COMPONENTS.append(COMPONENT_E2E3)
